@@ -261,14 +261,15 @@ META = dict(
                "loss in a non-final sub-block only carry the obligation 'normal return => committed == payload'.",
     bounds=dict(quick="payload lengths 1,6,7,8,13,14,15,21,22,49,50; block-size sequences [127],[1],[2],[3],[7],[2,3,1,5],"
                       "[1,127]; CRC on/off; buffered and raw writing; every single lost segment for 4 (length, block "
-                      "sizes) scenarios",
+                      "sizes) scenarios; payload written in pieces through the buffered stream (6 buffer/piece combinations incl. "
+                      "the documented 1024/1024 loop), undisturbed and with one lost segment",
                 thorough="every length 1..100, 888..890, 896, 1000, 1778, 1779, 5000; 7 loss scenarios incl. 889 bytes / "
                          "block size 127; 4 double-loss patterns; block size chosen symbolically per sub-block among "
-                         "{1,2,3,127} for lengths up to 35 bytes (with and without a single loss)"),
+                         "{1,2,3,127} for lengths up to 35 bytes (with and without a single loss); 14 chunked-write layouts up to 10000 bytes"),
     outside_bounds=["size not declared (block download without size indication)", "arbitrary block-size sequences beyond the listed ones",
                     "payloads beyond 1000 bytes", "loss of acknowledgements (server->client frames)"],
     assumptions=["a lost final segment of a sub-block makes the server wait (no acknowledge) and the client time out"],
-    stubs=["struct", "binascii.crc_hqx (z3 model)", "queue", "time", "io model", "logging"],
+    stubs=["struct", "binascii.crc_hqx (z3 model)", "queue", "time", "io model (BufferedWriter/BufferedReader after CPython bufferedio.c, views into the recycled buffer)", "logging"],
     required_reach=["ok-clean", "ok-loss", "failed-visibly", "ack-complete", "ack-retransmit", "ack-rejected"],
     limits=dict(quick=dict(max_decisions=50000), thorough=dict(max_decisions=200000)),
     validate_every=dict(quick=1, thorough=1),
